@@ -471,6 +471,14 @@ static const addrxlat_addrspace_t map_expect_as[ADDRXLAT_SYS_MAP_NUM] =
 	[ADDRXLAT_SYS_MAP_KPHYS_MACHPHYS] = ADDRXLAT_KPHYSADDR,
 };
 
+/** Maximum number of nested in-flight translations.
+ * Reading a page table or a memory array may itself need a translation.
+ * Sane setups nest a few levels.  A method whose data can be reached
+ * only through the method itself asks for a different address at every
+ * level, so the exact-match loop detection never triggers.
+ */
+#define MAX_INFLIGHT	16
+
 /**  In-flight translation.
  * This is used to detect infinite recursion.
  * @sa addrxlat_op
@@ -554,6 +562,7 @@ addrxlat_op(const addrxlat_op_ctl_t *ctl, const addrxlat_fulladdr_t *paddr)
 	struct inflight inflight, *pif;
 	const struct xlat_chain *chain;
 	addrxlat_status status;
+	unsigned depth;
 
 	clear_error(ctl->ctx);
 
@@ -592,6 +601,12 @@ addrxlat_op(const addrxlat_op_ctl_t *ctl, const addrxlat_fulladdr_t *paddr)
 		return set_error(ctl->ctx, ADDRXLAT_ERR_NOTIMPL,
 				 "Unrecognized address space");
 	}
+
+	depth = 0;
+	for (pif = ctl->ctx->inflight; pif; pif = pif->next)
+		if (++depth >= MAX_INFLIGHT)
+			return set_error(ctl->ctx, ADDRXLAT_ERR_NOTIMPL,
+					 "Too many nested translations");
 
 	inflight.faddr = *paddr;
 	inflight.chain = chain;
